@@ -227,6 +227,10 @@ func (c *checker) direct(t reflect.Type, before, after reflect.Value, n *ref.Nod
 		if n.Kind == ref.Object && be.Kind() == reflect.Map && ae.Kind() == reflect.Map && be.Type() == ae.Type() {
 			c.ev("any_merge_map")
 			c.direct(be.Type(), be, ae, n, path)
+		} else if be.Type() == ae.Type() && (be.Kind() == reflect.Pointer || be.Kind() == reflect.Struct || be.Kind() == reflect.Slice || be.Kind() == reflect.Array) {
+			// (only a caller can have put these into an interface: held.go)
+			c.ev("any_held_" + be.Kind().String())
+			c.direct(be.Type(), be, ae, n, path)
 		} else {
 			c.ev("any_replace")
 		}
@@ -471,7 +475,8 @@ var M = &run.Monitor{
 	Rule: "chains j1..jk (k=2..4) of texts fitted to a generated type (structs, maps with string/int/named keys, pointers, slices, arrays, any, scalars, " +
 		"declared recursive/embedded/fallback types; depth <= 4) with nulls, missing and unknown members and every JSON kind at any-positions; three routes " +
 		"(Unmarshal, UnmarshalRead, UnmarshalDecode on one stream); each successful step is checked against the direct clauses on a deep snapshot and, from step 2 on, " +
-		"against Unmarshal(serialize(ref.Merge(j1..jk))) into a fresh zero value. distinct = type expression x set of merge events observed in the chain",
+		"against Unmarshal(serialize(ref.Merge(j1..jk))) into a fresh zero value; held: interface slots (any, field, map value, element, behind a pointer) that the caller populated with " +
+		"pointers, pointers to pointers, structs, typed maps/slices/arrays receive null / fitting / unfitting texts and each successful step is checked against the direct clauses. distinct = type expression x set of merge events observed in the chain",
 	Assumptions: []string{
 		"ref.Merge/ref.Serialize (self-tested each run against a map-level merge over the toolchain's encoding/json)",
 		"the right-hand side of the law is computed by the library itself (the property is relational); reflect.DeepEqual is the equality",
@@ -486,6 +491,9 @@ var M = &run.Monitor{
 		}
 		need("steps_compared", 20000)
 		need("compared_at_len_4", 1000)
+		need("held_steps_checked", 2000)
+		need("held_null_steps", 500)
+		need("ev_any_held_ptr", 300)
 		for _, e := range []string{"null_over_nonzero", "ptr_reused", "any_merge_map", "any_replace", "slice_shrink", "slice_grow", "slice_stale_elem",
 			"array_short", "array_short_over_nonzero", "map_merge_existing", "map_kept", "struct_kept_nonzero", "struct_member_over_nonzero", "fallback_members"} {
 			need("ev_"+e, 100)
@@ -571,11 +579,13 @@ func selfTest() error {
 
 func main() {
 	run.Def(M, "chain", runChain)
+	run.Def(M, "held", runHeld)
 	M.Gen = generate
 	run.Main(M)
 }
 
 func generate(w *run.W) {
+	generateHeld(w)
 	nb := w.Pick(4000, 16000)
 	for b := 0; b < nb; b++ {
 		if !w.Mine(b) {
